@@ -34,6 +34,27 @@ def gen_flat(rnd, sid):
                 run_empty=True, deliver_at=[])
 
 
+def gen_late_same(rnd, sid):
+    """a handler of class U1 registers another handler for U1 while a U1 signal is being delivered (both loops walk the live list: it gets that signal too)"""
+    hs = [dict(cls="U1", hid=0, data=None, scripts=[[["reg_handler", 1]], [], [], []]), dict(cls="U1", hid=1, data=rnd.choice([None, 7]), scripts=[[]] * 6, late=True)]
+    if rnd.random() < 0.5: hs.append(dict(cls="U1", hid=2, data=None, scripts=[[]] * 6))
+    return dict(op="machine", mode="late", width=80, screens=[], handlers=hs, init=[["enq", "U1", 0, None, sid.next()] for _ in range(rnd.randint(1, 3))], stdin=[],
+                quit_cb=None, quit_screen=None, exc_handler=False, run_empty=True, deliver_at=[])
+
+
+def gen_wait_raise(rnd, sid):
+    """a handler waits for a signal class (process_signals(return_after=X)); a handler of X raises an ordinary exception, which the application handles itself: the wait is
+    over all the same and the program goes on"""
+    hs = [dict(cls="U0", hid=0, data=None, scripts=[[["enq", "U1", 0, None, sid.next()], ["proc", "U1"], ["enq", "U2", 0, None, sid.next()]]]),
+          dict(cls="U1", hid=1, data=None, scripts=[[["raise_err"]], []]),
+          dict(cls="U2", hid=2, data=None, scripts=[[], []])]
+    if rnd.random() < 0.5: hs.insert(1, dict(cls="U1", hid=3, data=None, scripts=[[], []]))
+    # (_strict: in this family the failing handler is the last one of its signal and nothing else is pending, so none of the known divergences G1-G4 can occur: a
+    # divergence here is judged as it is, not attributed to the non-calm history)
+    return dict(op="machine", mode="loop", width=80, screens=[], handlers=hs, init=[["enq", "U0", 0, None, sid.next()]], stdin=[], quit_cb=None, quit_screen=None,
+                exc_handler=True, run_empty=True, deliver_at=[], _strict=True)
+
+
 def flat_model_case(case):
     def sig(a): return [int(a[1][1:]), a[2], a[4]]
     return {"op": "gflat", "steps": 600, "init": [sig(a) for a in case["init"]],
@@ -47,6 +68,7 @@ def generate(rnd, tier):
     cases = [with_cc(gen_flat(rnd, sid)) for _ in range(n)] + [with_cc(gen_c01(rnd, sid)) for _ in range(n // 2)]
     from harness.props.C02 import gen_late
     cases += [with_cc(gen_late(rnd, sid)) for _ in range(n // 10)]
+    cases += [with_cc(gen_late_same(rnd, sid)) for _ in range(n // 20)] + [with_cc(gen_wait_raise(rnd, sid)) for _ in range(n // 10)]
     for _ in range(n):
         c = gen_case(rnd, rnd.choice(["tame", "tame", "app", "loop"]), sid)
         c["deliver_at"] = []          # delivery points are indices into a log that may differ between the loops: deliver only when blocked
@@ -123,7 +145,7 @@ def monitor(case, obs):
 
 
 def classify(case, obs, verdict, model):
-    if not model: return None
+    if not model or case.get("_strict"): return None
     if case.get("mode") == "flat": return None if model.get("calm") else "G1"
     nc = model.get("noncalm", [])
     for clause, gid in (("C1-urgent-enqueue", "G1"), ("C3-handler-exception", "G2"), ("C2-close-with-pending", "G3"), ("C4-processing-call-with-pending", "G4")):
